@@ -41,6 +41,27 @@ impl Out {
 		let line = json!({"i": idx, "k": k, "ok": key.is_none(), "key": key, "detail": detail});
 		writeln!(self.w, "{}", line).unwrap();
 	}
+	/// verdict of one case with possibly several independent problems (each keeps its own structural key, so a
+	/// recorded finding can never mask a different violation in the same case)
+	pub fn problems(&mut self, idx: usize, k: usize, probs: Vec<(String, Value)>, ok_detail: Value) {
+		if probs.is_empty() {
+			return self.verdict(idx, k, None, ok_detail);
+		}
+		let mut seen = std::collections::BTreeSet::new();
+		let mut first = true;
+		for (key, d) in probs {
+			if !seen.insert(key.clone()) {
+				continue;
+			}
+			if first {
+				self.verdict(idx, k, Some(key), d);
+				first = false;
+			} else {
+				let line = json!({"i": idx, "k": k, "extra": true, "key": key, "detail": d});
+				writeln!(self.w, "{}", line).unwrap();
+			}
+		}
+	}
 	pub fn raw(&mut self, v: &Value) {
 		writeln!(self.w, "{}", v).unwrap();
 	}
